@@ -86,6 +86,16 @@ func snapshotSendTimesOut(rec *mon.Recorder, c int) {
 	}
 	r.note("node 3 joined (acknowledged)")
 	time.Sleep(800 * time.Millisecond) // the held snapshot message has timed out at its sender
+	// node 3 is given a few seconds to be brought up to date by a second snapshot message (until then it disturbs the
+	// others with elections it cannot win); whether it has been or not, node 4 joins next
+	cl.WaitFor(5*time.Second, func() bool {
+		var lead, mine uint64
+		cl.Guard(2*time.Second, func() {
+			lead = cl.Nodes[0].In.ZeroGroup.VerifStatus().Commit
+			mine = joiner.In.ZeroGroup.VerifStatus().Applied
+		})
+		return lead > 0 && mine >= lead
+	})
 	var jerr error
 	for attempt := 0; attempt < 3; attempt++ {
 		if jerr = cl.StartNode(3); jerr == nil {
